@@ -1,2 +1,3 @@
 //! Reference models (DESIGN.md §3.3): written for this purpose, f64, no code shared with the subject.
 pub mod decl;
+pub mod balance;
